@@ -54,6 +54,18 @@ def generate(rng, n, tier):
         c["pre"], c["post"] = ops, tail
         del c["ops"]
         c["action"] = rng.choice(["deepcopy", "saveload", "dill", "savefreq"])
+        if rng.random() < 0.2:
+            # one long Solve (DE settings given as keywords) with periodic dumps; resume from the last dump and catch up
+            cfg = [o for o in ops if o["op"] not in ("Step", "Solve", "SetLimits", "Finalize")]
+            G_ = rng.choice([4, 5, 7])
+            solve = dict(op="Solve", cb=False)
+            if c["solver"] in ("DE", "DE2"):
+                solve["kw"] = dict(strategy=c["strategy"], CrossProbability=rng.choice([0.9, 0.5, 1.0]), ScalingFactor=rng.choice([0.8, 0.5]))
+                c["de_kw"] = True
+            c["pre"] = cfg + [dict(op="SetLimits", g=G_, e=None, new=False), solve]
+            c["post"] = []
+            c["action"] = "midsolve"
+            c["every"] = rng.choice([2, 3])
         yield c
 
 
@@ -83,10 +95,12 @@ def _run(case):
     try:
         s0 = L.build_solver(kind, case["ndim"], case.get("npop", 4))
         s0._verif_tag = tag0
-        if kind in ("DE", "DE2"):
+        if kind in ("DE", "DE2") and not case.get("de_kw"):
             s0.strategy = case.get("strategy", "Best1Bin"); s0.probability = case.get("cross", 0.9); s0.scale = case.get("scale", 0.8)
         if case["action"] == "savefreq":
             s0.SetSaveFrequency(1, fname)
+        if case["action"] == "midsolve":
+            return _run_midsolve(case, s0, rec0, tag0, tag1, fname)
         pre_trace, pre_res = [], []
         with L.Instrumented():
             for k, op in enumerate(case["pre"]):
@@ -144,12 +158,69 @@ def _run(case):
             os.remove(fname)
 
 
+def _run_midsolve(case, s0, rec0, tag0, tag1, fname):
+    """one long Solve with periodic dumps; restore an EARLIER dump (copied aside when written), give it the RNG state of that
+    moment, let it Solve() to the end with no keywords, and compare the final states"""
+    import shutil
+    from mystic.solvers import LoadSolver
+    from mystic.abstract_solver import AbstractSolver
+    s0.SetSaveFrequency(case["every"], fname)
+    dumps = []
+    origSave = AbstractSolver.SaveSolver
+    def SaveSolver(self, *a, **k):
+        r = origSave(self, *a, **k)
+        if getattr(self, "_verif_tag", None) == tag0 and os.path.exists(fname):
+            cp = "%s.g%d" % (fname, len(dumps))
+            shutil.copy(fname, cp)
+            dumps.append(dict(gens=int(self.generations), rng=(random.getstate(), np.random.get_state()), file=cp, rec=rec0.fork()))
+        return r
+    AbstractSolver.SaveSolver = SaveSolver
+    try:
+        with L.Instrumented():
+            trace = []
+            for k, op in enumerate(case["pre"]):
+                res, msg = L.apply_op(s0, rec0, op, k, tag0)
+                trace.append(L.snapshot(s0, rec0, msg))
+            final0 = L.snapshot(s0, rec0, None)
+            AbstractSolver.SaveSolver = origSave
+            early = [d for d in dumps if 0 < d["gens"] < final0["gens"]]
+            out = dict(restored=False, action="midsolve", at=final0, t0=[], pre_trace=trace, ndumps=len(dumps))
+            if not early:
+                return out
+            d = early[len(early) // 2]
+            s1 = LoadSolver(d["file"])
+            rec1 = L.REG[tag1] = d["rec"]
+            L.retag(s1, tag1)
+            random.setstate(d["rng"][0]); np.random.set_state(d["rng"][1])
+            s1.SetSaveFrequency(None)
+            s1.Solve()
+            final1 = L.snapshot(s1, rec1, None)
+            out.update(restored=True, mid=True, from_gens=d["gens"], final0=view(final0), final1=view(final1),
+                       orig_untouched=view(L.snapshot(s0, rec0, None)) == view(final0))
+            return out
+    finally:
+        AbstractSolver.SaveSolver = origSave
+        for d in dumps:
+            if os.path.exists(d["file"]):
+                os.remove(d["file"])
+
+
 def oracle(case, out):
     f = []
     site = {"DE": "DifferentialEvolutionSolver", "DE2": "DifferentialEvolutionSolver2", "NM": "NelderMeadSimplexSolver", "POW": "PowellDirectionalSolver"}[case["solver"]]
     if "__exception__" in out:
         return [SC.fail("no-crash", site, out["__exception__"], out.get("__msg__"))]
     if not out["restored"]:
+        return f
+    if out.get("mid"):
+        v0, v1 = dict(out["final0"]), dict(out["final1"])
+        for q in ("msg", "maxiter", "maxfun"):
+            v0.pop(q, None); v1.pop(q, None)
+        if v0 != v1:
+            diff = [q for q in v0 if v0[q] != v1[q]]
+            f.append(SC.fail("resume_equiv", site, "resumed-solve-differs:periodic-dump", dict(from_generation=out["from_gens"], fields=diff)))
+        if not out["orig_untouched"]:
+            f.append(SC.fail("copy_independent", site, "original-changed-by-snapshot:periodic-dump"))
         return f
     a = out["action"]
     # the snapshot is the original at the boundary (a periodic dump is taken inside the last iteration)
@@ -181,7 +252,7 @@ def coq_preamble():
 
 
 def coq_terms(case, out):
-    if "__exception__" in out or not out.get("restored") or case["solver"] not in L.SOLVERS:
+    if "__exception__" in out or not out.get("restored") or out.get("mid") or case["solver"] not in L.MODELLED:
         return []
     full = dict(case, ops=case["pre"] + case["post"])
     if not L.modelled(full):
@@ -203,6 +274,8 @@ def classify(case, out):
         return json.dumps(case, sort_keys=True), False, tags + ["exception:" + out["__exception__"]]
     tags.append("restored:%s" % out["restored"])
     n = 0
+    if out.get("mid"):
+        n = out["final1"]["gens"] - out["from_gens"]
     if out.get("t1"):
         n = out["t1"][-1]["nstep"] - out["at"]["nstep"]
     tags.append("tail-iterations:%s" % ("0" if n == 0 else "1" if n == 1 else "2+"))
